@@ -52,8 +52,9 @@ func NewBuilderSized(
 	if valueSizeBytes == 0 {
 		return nil, fmt.Errorf("valueSizeBytes must be > 0")
 	}
-	if valueSizeBytes > 255 {
-		return nil, fmt.Errorf("valueSizeBytes must be <= 255")
+	if valueSizeBytes > 255-HashSize {
+		// the entry stride (HashSize + value size) is stored in a uint8
+		return nil, fmt.Errorf("valueSizeBytes must be <= %d", 255-HashSize)
 	}
 	if numItems == 0 {
 		return nil, fmt.Errorf("numItems must be > 0")
